@@ -79,8 +79,15 @@ def as_slice(x):
 
 
 def slice_items(it, s):
-    st = it.concretize(Sc('usize', s.start), 'slice start')
     ln = it.concretize(Sc('usize', s.len), 'slice length')
+    if not isinstance(s.start, int):
+        st0 = z3.simplify(s.start)
+        if not z3.is_bv_value(st0):
+            # symbolic start inside a concrete buffer: element i is buf[start+i] (ITE over the buffer)
+            it.require(z3.ULE(st0, z3.BitVecVal(len(s.buf) - ln, 64)) if len(s.buf) >= ln else z3.BoolVal(False),
+                       'slice with symbolic start exceeds its allocation of %d elements' % len(s.buf), 'oob')
+            return [it.load_sym(s.buf, st0 + i) for i in range(ln)]
+    st = it.concretize(Sc('usize', s.start), 'slice start')
     if st + ln > len(s.buf):
         raise PanicReached('slice [%d..%d] beyond its allocation of %d elements' % (st, st + ln, len(s.buf)), 'oob')
     return s.buf[st:st + ln]
@@ -139,6 +146,11 @@ class Models:
         f = it.smt.ufun('fmod', 2)
         r = f(X, Y)
         smt = it.smt
+        apps = getattr(smt, 'fmod_apps', None)
+        if apps is None:
+            apps = smt.fmod_apps = []
+        # the argument region in which the axioms below pin the result down exactly
+        apps.append(z3.Or(z3.fpIsNaN(X), z3.fpIsNaN(Y), z3.fpIsInf(X), z3.fpIsZero(Y), z3.fpIsInf(Y), z3.fpLT(z3.fpAbs(X), z3.fpAbs(Y))))
         # exact special-case axioms (IEEE 754 / C99 fmod)
         smt.add(z3.Implies(z3.Or(z3.fpIsNaN(X), z3.fpIsNaN(Y), z3.fpIsInf(X), z3.fpIsZero(Y)), z3.fpIsNaN(r)))
         fin = z3.And(z3.Not(z3.fpIsNaN(X)), z3.Not(z3.fpIsNaN(Y)), z3.Not(z3.fpIsInf(X)), z3.Not(z3.fpIsZero(Y)))
@@ -232,9 +244,12 @@ def _f1(name, conc, sym):
     def f(it, args, fr, callee):
         x = args[0].v
         if isinstance(x, int):
+            fx = S.b2f(x)
             try:
-                r = conc(S.b2f(x))
-            except (ValueError, OverflowError):
+                r = conc(fx)
+            except OverflowError:
+                r = math.copysign(float('inf'), fx) if name == 'sinh' else float('inf')
+            except ValueError:
                 r = float('nan')
             return Sc('f64', S.f2b(r))
         return Sc('f64', sym(it, x))
@@ -737,6 +752,11 @@ def m_from_raw_parts(it, args, fr, callee):
     p, n = args
     if type(p) is Slice:
         p = Ref(p.buf, p.start)
+    if type(p) is BytePtr:
+        nb = it.concretize(n, 'byte length')
+        if nb % 8 or p.start + nb // 8 > len(p.buf):
+            raise PanicReached('raw byte slice of %d bytes exceeds its allocation of %d words' % (nb, len(p.buf) - p.start), 'oob')
+        return ByteSlice(p.buf, p.start, nb)
     if type(p) is not Ref:
         raise Unsupported('from_raw_parts of %r' % (p,))
     size = len(p.cont)
@@ -1320,8 +1340,14 @@ def to_iter(it, x, fr):
         if type(t) is Slice:
             x = t
     if type(x) is Slice:
-        st = it.concretize(Sc('usize', x.start), 'slice start')
         ln = it.concretize(Sc('usize', x.len), 'slice length')
+        if not isinstance(x.start, int) and not z3.is_bv_value(z3.simplify(x.start)):
+            st0 = z3.simplify(x.start)
+            buf = x.buf
+            it.require(z3.ULE(st0, z3.BitVecVal(len(buf) - ln, 64)) if len(buf) >= ln else z3.BoolVal(False),
+                       'slice with symbolic start exceeds its allocation of %d elements' % len(buf), 'oob')
+            return IterV((Ref(buf, st0 + i) for i in range(ln)), 'slice.iter', exact=ln)
+        st = it.concretize(Sc('usize', x.start), 'slice start')
         if st + ln > len(x.buf):
             raise PanicReached('slice iteration beyond its allocation', 'oob')
         buf = x.buf
@@ -1822,12 +1848,9 @@ def m_hashmap_get(it, args, fr, callee):
     return some(EntryRef(m, i))
 
 
-class EntryRef(Ref):
+def EntryRef(m, i):
     """pointer to the value of map entry i (cont/key protocol via a proxy list)"""
-    __slots__ = ()
-
-    def __init__(self, m, i):
-        Ref.__init__(self, _EntryProxy(m, i), 0)
+    return Ref(_EntryProxy(m, i), 0)
 
 
 class _EntryProxy(object):
@@ -2067,3 +2090,162 @@ def m_f16_to_f64(it, args, fr, callee):
     if type(a) is Sc and a.t == 'f64':
         return a          # the driver stores HFloat immediates pre-widened (exact) as f64 bits
     raise Unsupported('f16::to_f64 of %r' % (a,))
+
+
+# =================================================================================================
+# slotmap 1.0.7 (SlotMap<DefaultKey, V>): slots/free-list/version semantics copied from basic.rs
+# =================================================================================================
+def _deref_slotmap(x):
+    while type(x) is Ref:
+        x = x.cont[x.key]
+    if type(x) is SlotMapV:
+        return x
+    raise Unsupported('expected SlotMap, got %r' % (x,))
+
+
+def _key_parts(it, k):
+    """DefaultKey / ClosureIdx / KeyData Agg -> (idx, version) concrete ints"""
+    while type(k) is Ref:
+        k = k.cont[k.key]
+    while type(k) is Agg and k.ty != 'KeyData':
+        k = k.fields[0]
+    if type(k) is Sc:
+        v = it.concretize(k, 'slotmap key')
+        return v & 0xffffffff, (v >> 32) & 0xffffffff
+    idx = it.concretize(k.fields[0], 'slotmap key index')
+    ver = it.concretize(k.fields[1], 'slotmap key version')
+    return idx, ver
+
+
+def _mk_key(idx, ver):
+    return Agg('DefaultKey', None, [Agg('KeyData', None, [Sc('u32', idx), Sc('u32', ver)])])
+
+
+@model('SlotMap::new', 'SlotMap::with_key', 'slotmap::SlotMap::new', 'slotmap::SlotMap::with_key')
+def m_sm_new(it, args, fr, callee):
+    return SlotMapV()
+
+
+@tmodel('SlotMap', 'Default', 'default')
+def m_sm_default(it, args, fr, callee):
+    return SlotMapV()
+
+
+@tmodel('SlotMap', 'Clone', 'clone')
+def m_sm_clone(it, args, fr, callee):
+    return clone_val(_deref_slotmap(args[0]))
+
+
+@model('SlotMap::insert', 'slotmap::SlotMap::insert')
+def m_sm_insert(it, args, fr, callee):
+    sm = _deref_slotmap(args[0])
+    val = args[1]
+    if sm.free_head < len(sm.slots):
+        slot = sm.slots[sm.free_head]
+        ver = slot[0] | 1
+        idx = sm.free_head
+        sm.free_head = slot[2]
+        slot[1] = val
+        slot[0] = ver
+    else:
+        idx = len(sm.slots)
+        ver = 1
+        sm.slots.append([ver, val, 0])
+        sm.free_head = idx + 1
+    sm.num_elems += 1
+    return _mk_key(idx, ver)
+
+
+def _sm_slot(it, sm, k):
+    idx, ver = _key_parts(it, k)
+    if idx < len(sm.slots) and sm.slots[idx][0] == ver and (ver & 1):
+        return sm.slots[idx]
+    return None
+
+
+@model('SlotMap::get', 'SlotMap::get_mut', 'slotmap::SlotMap::get', 'slotmap::SlotMap::get_mut')
+def m_sm_get(it, args, fr, callee):
+    sm = _deref_slotmap(args[0])
+    slot = _sm_slot(it, sm, args[1])
+    return none() if slot is None else some(Ref(slot, 1))
+
+
+@model('SlotMap::get_unchecked', 'SlotMap::get_unchecked_mut', 'slotmap::SlotMap::get_unchecked', 'slotmap::SlotMap::get_unchecked_mut')
+def m_sm_get_unchecked(it, args, fr, callee):
+    sm = _deref_slotmap(args[0])
+    slot = _sm_slot(it, sm, args[1])
+    if slot is None:
+        raise PanicReached('SlotMap::get_unchecked with a key that is not alive (use after free: undefined behaviour)', 'oob')
+    return Ref(slot, 1)
+
+
+@model('SlotMap::contains_key', 'slotmap::SlotMap::contains_key')
+def m_sm_contains(it, args, fr, callee):
+    sm = _deref_slotmap(args[0])
+    return Sc('bool', int(_sm_slot(it, sm, args[1]) is not None))
+
+
+@model('SlotMap::remove', 'slotmap::SlotMap::remove')
+def m_sm_remove(it, args, fr, callee):
+    sm = _deref_slotmap(args[0])
+    idx, ver = _key_parts(it, args[1])
+    slot = _sm_slot(it, sm, args[1])
+    if slot is None:
+        return none()
+    val = slot[1]
+    slot[1] = None
+    slot[2] = sm.free_head
+    sm.free_head = idx
+    sm.num_elems -= 1
+    slot[0] = (slot[0] + 1) & 0xffffffff
+    return some(val)
+
+
+@model('SlotMap::len', 'slotmap::SlotMap::len')
+def m_sm_len(it, args, fr, callee):
+    return Sc('usize', _deref_slotmap(args[0]).num_elems)
+
+
+@model('SlotMap::values', 'slotmap::SlotMap::values')
+def m_sm_values(it, args, fr, callee):
+    sm = _deref_slotmap(args[0])
+    return IterV((Ref(s, 1) for s in sm.slots[1:] if s[0] & 1), 'slotmap.values')
+
+
+@tmodel('SlotMap', 'Index', 'index')
+@tmodel('SlotMap', 'IndexMut', 'index_mut')
+def m_sm_index(it, args, fr, callee):
+    sm = _deref_slotmap(args[0])
+    slot = _sm_slot(it, sm, args[1])
+    if slot is None:
+        raise PanicReached('invalid SlotMap key used', 'panic')
+    return Ref(slot, 1)
+
+
+@model('KeyData::from_ffi', 'slotmap::KeyData::from_ffi')
+def m_kd_from_ffi(it, args, fr, callee):
+    v = args[0].v
+    if isinstance(v, int):
+        return Agg('KeyData', None, [Sc('u32', v & 0xffffffff), Sc('u32', ((v >> 32) | 1) & 0xffffffff)])
+    return Agg('KeyData', None, [Sc('u32', z3.Extract(31, 0, v)), Sc('u32', z3.Extract(63, 32, v) | 1)])
+
+
+@model('KeyData::as_ffi', 'slotmap::KeyData::as_ffi')
+def m_kd_as_ffi(it, args, fr, callee):
+    k = args[0]
+    while type(k) is Ref:
+        k = k.cont[k.key]
+    return it.flatten_word(k)
+
+
+@tmodel('DefaultKey', 'Key', 'data')
+def m_key_data(it, args, fr, callee):
+    k = args[0]
+    while type(k) is Ref:
+        k = k.cont[k.key]
+    return copy_val(k.fields[0])
+
+
+@tmodel('DefaultKey', 'From', 'from')
+def m_key_from(it, args, fr, callee):
+    return Agg('DefaultKey', None, [args[0]])
